@@ -362,6 +362,9 @@ func (idx indexSubTable4) imageFor(gid gID, first, last gID) *bitmapImage {
 
 // imageData starts at the image (table[imageDataOffset:])
 func parseIndexSubTable4(header tables.BitmapSubtable, index tables.IndexData4, imageData []byte) (indexSubTable4, error) {
+	if len(index.GlyphArray) == 0 { // numGlyphs + 1 overflowed
+		return indexSubTable4{}, errors.New("invalid bitmap index format 4: empty glyph array")
+	}
 	out := indexSubTable4{
 		format: header.ImageFormat,
 		glyphs: make([]indexedBitmapGlyph, len(index.GlyphArray)-1),
